@@ -24,6 +24,9 @@ else:
     sh("rm -rf %s; rsync -a --exclude _build /repo/ %s/" % (cp, cp))
     rc, out = sh("git -C %s apply %s/patch.diff" % (cp, d)); assert rc == 0, out
     env["VERIF_REPO"] = cp
+# the run regenerates lean/CMacVerif/Gen/*.lean from the CHANGED tree: remember what is there now
+import glob
+gen_before = {f: open(f).read() for f in glob.glob("/verif/lean/CMacVerif/Gen/*.lean")}
 t0 = time.time()
 try:
     p = subprocess.run("python3 tools/check.py %s --tier %s" % (pid, tier), shell=True, cwd="/verif", env=env,
@@ -35,8 +38,14 @@ finally:
     else:
         import hashlib
         sh("rm -rf %s /verif/.build/*alt_%s" % (cp, hashlib.sha256(cp.encode()).hexdigest()[:8]))
-# the run regenerated Gen/*.lean from the changed tree: restore the committed (clean-tree) files
-sh("git -C /verif checkout -- lean/CMacVerif/Gen")
+# ... and put back exactly the files this run changed (not `git checkout`: the committed copy can be
+# older than what a concurrently running check of another property needs)
+for f, txt in gen_before.items():
+    try:
+        if open(f).read() != txt:
+            open(f, "w").write(txt)
+    except OSError:
+        pass
 viol = [l for l in out.split("\n") if l.startswith("VIOLATION")]
 desc = [l.strip() for l in out.split("\n") if l.strip().startswith("violation:")]
 res = {"check": pid, "tier": tier, "exit": rc, "caught": rc == 1 and bool(viol), "wall_s": round(time.time() - t0, 1),
